@@ -249,6 +249,7 @@ func (a *attacker) connect() bool {
 		rcn.close()
 		return false
 	}
+	rcn.wt = 20 * time.Second // a hostile client whose write stalls gives up and drops the connection
 	a.conn = rcn
 	a.logf("connect+authenticate")
 	return true
